@@ -119,6 +119,19 @@ func (s *Staking) processDoubleSignV5(config *params.YouParams, currentDB *state
 	if len(doubleSign.Signs) < 2 {
 		return
 	}
+	// a double sign needs two DIFFERENT block hashes: one vote listed twice proves nothing,
+	// it can be assembled from any single vote of an honest validator.
+	distinct := false
+	for _, info := range doubleSign.Signs[1:] {
+		if info.Hash != doubleSign.Signs[0].Hash {
+			distinct = true
+			break
+		}
+	}
+	if !distinct {
+		log.Warn("ignored double sign evidence without two different hashes", "round", doubleSign.Round, "roundIndex", doubleSign.RoundIndex, "signerIdx", doubleSign.SignerIdx)
+		return
+	}
 
 	log.Info("slashing", "type", EvidenceTypeDoubleSignV5, "parent", parentHeight, "eRound", doubleSign.Round, "eRoundIndex", doubleSign.RoundIndex, "sinerIdx", doubleSign.SignerIdx, "signs", len(doubleSign.Signs))
 	switch {
